@@ -142,20 +142,34 @@ impl ParsedValue {
         locale: &Key,
         foreign_keys_paths: &ForeignKeysPaths,
     ) -> Result<Self> {
-        let parsed_value = [
-            Self::find_foreign_key,
-            Self::find_component,
-            Self::find_variable,
-        ]
-        .into_iter()
-        .find_map(|f| f(value, key_path, locale, foreign_keys_paths));
-        if let Some(parsed_value) = parsed_value {
-            parsed_value
+        // the pieces following the first one are found in a loop rather than by recursing on what is left,
+        // so a value made of many pieces does not need a stack frame per piece.
+        let mut pieces = Vec::new();
+        let mut rest = value;
+        loop {
+            let found = [
+                Self::find_foreign_key,
+                Self::find_component,
+                Self::find_variable,
+            ]
+            .into_iter()
+            .find_map(|f| f(rest, key_path, locale, foreign_keys_paths));
+            match found {
+                Some(Ok((before, this, after))) => {
+                    pieces.push(before);
+                    pieces.push(this);
+                    rest = after;
+                }
+                Some(Err(err)) => return Err(err),
+                None => break,
+            }
+        }
+        let last = ParsedValue::Literal(Literal::String(rest.to_string(), usize::MAX));
+        if pieces.is_empty() {
+            Ok(last)
         } else {
-            Ok(ParsedValue::Literal(Literal::String(
-                value.to_string(),
-                usize::MAX,
-            )))
+            pieces.push(last);
+            Ok(ParsedValue::Bloc(pieces))
         }
     }
 
@@ -305,12 +319,13 @@ impl ParsedValue {
         Ok((args, after))
     }
 
-    fn find_foreign_key(
-        value: &str,
+    /// The `find_*` functions return the parsed text before the piece they found, the piece, and the text left after it.
+    fn find_foreign_key<'a>(
+        value: &'a str,
         key_path: &KeyPath,
         locale: &Key,
         foreign_keys_paths: &ForeignKeysPaths,
-    ) -> Option<Result<Self>> {
+    ) -> Option<Result<(Self, Self, &'a str)>> {
         let (before, rest) = value.split_once("$t(")?;
         let next_split = rest.find([',', ')'])?;
         let keypath = rest.get(..next_split)?;
@@ -337,24 +352,22 @@ impl ParsedValue {
             foreign_keys_paths,
         )));
         let before = nested_result_try!(Self::new(before, key_path, locale, foreign_keys_paths));
-        let after = nested_result_try!(Self::new(after, key_path, locale, foreign_keys_paths));
 
-        Some(Ok(ParsedValue::Bloc(vec![before, this, after])))
+        Some(Ok((before, this, after)))
     }
 
-    fn find_variable(
-        value: &str,
+    fn find_variable<'a>(
+        value: &'a str,
         key_path: &KeyPath,
         locale: &Key,
         foreign_keys_paths: &ForeignKeysPaths,
-    ) -> Option<Result<Self>> {
+    ) -> Option<Result<(Self, Self, &'a str)>> {
         let (before, rest) = value.split_once("{{")?;
         let (ident, after) = rest.split_once("}}")?;
 
         let ident = ident.trim();
 
         let before = nested_result_try!(Self::new(before, key_path, locale, foreign_keys_paths));
-        let after = nested_result_try!(Self::new(after, key_path, locale, foreign_keys_paths));
 
         let this = if let Some((ident, formatter)) = ident.split_once(',') {
             let formatter = nested_result_try!(Self::parse_formatter(formatter, locale, key_path));
@@ -368,7 +381,7 @@ impl ParsedValue {
             }
         };
 
-        Some(Ok(ParsedValue::Bloc(vec![before, this, after])))
+        Some(Ok((before, this, after)))
     }
 
     fn find_valid_component(value: &str) -> Option<(Key, &str, &str, &str)> {
@@ -385,12 +398,12 @@ impl ParsedValue {
         }
     }
 
-    fn find_component(
-        value: &str,
+    fn find_component<'a>(
+        value: &'a str,
         key_path: &KeyPath,
         locale: &Key,
         foreign_keys_paths: &ForeignKeysPaths,
-    ) -> Option<Result<Self>> {
+    ) -> Option<Result<(Self, Self, &'a str)>> {
         let (key, before, beetween, after) = Self::find_valid_component(value)?;
 
         let before = nested_result_try!(ParsedValue::new(
@@ -405,19 +418,12 @@ impl ParsedValue {
             locale,
             foreign_keys_paths
         ));
-        let after = nested_result_try!(ParsedValue::new(
-            after,
-            key_path,
-            locale,
-            foreign_keys_paths
-        ));
-
         let this = ParsedValue::Component {
             key,
             inner: beetween.into(),
         };
 
-        Some(Ok(ParsedValue::Bloc(vec![before, this, after])))
+        Some(Ok((before, this, after)))
     }
 
     fn find_closing_tag<'a>(value: &'a str, key: &str) -> Option<(Key, &'a str, &'a str)> {
